@@ -139,6 +139,13 @@ Theorem C17_typed_first : forall ty v,
 Proof. intros ty v. split; [apply typed_first|apply typed_absent]. Qed.
 Print Assumptions C17_typed_first.
 
+(* the runner (Model.run) builds configurations with cfg_new_v, whose entries may also be hand-nested one-level
+   mappings (modelled and correspondence-checked, outside the theorems); on number-valued entries it is cfg_new *)
+Theorem C17_cfg_new_v_numbers : forall cfg : list (str * N),
+  cfg_new_v (map (fun e => (fst e, VNum (snd e))) cfg) = cfg_new cfg.
+Proof. exact cfg_new_v_numbers. Qed.
+Print Assumptions C17_cfg_new_v_numbers.
+
 (* the executable form of the specification is the specification *)
 Theorem C17_spec_executable : forall cfg p name v, In (name, v) (spec_capture cfg p) <-> receives cfg p name v.
 Proof. exact spec_capture_ok. Qed.
